@@ -1,193 +1,107 @@
-(* C12 — tie between the Python text of `_load_ref` / `_write_hyp` (src/pydrobert/torch/_datasets.py) and
-   PV.C12.Model.load_ref / write_hyp, checked by the kernel.  PV.Gen.C12Src.load_ref_body / write_hyp_body are the
-   MiniPy terms harness/py2coq/translate.py regenerates from /repo on every run; PV.MiniPy.Interp is their
-   semantics; the torch calls mean what PV.MiniTorch.OpsC12 says (through SrcRun.ext12).  If the source is edited
-   so that the statements below stop being true, this file stops compiling and the C12 check reports the broken
-   obligation. *)
-From Coq Require Import ZArith List String Bool Arith Lia ZifyBool.
+(* C12 — source tie, the statements: the Python text of `_load_ref`, `_write_hyp` (and blocks of `_info_and_validate`,
+   TieValidate.v) as regenerated into PV.Gen.C12Src on every run, interpreted by PV.MiniPy.Interp with the torch calls
+   given the meaning of PV.MiniTorch.OpsC12, computes what PV.C12.Model computes - for all inputs - and, composed with
+   the model's theorems, wraps / strips the start and end symbols as the property says.  The symbolic runs are in
+   TieLoad.v and TieHyp.v, the list-level facts in TieModel.v.  No axioms. *)
+From Coq Require Import ZArith List String Bool Arith Lia.
 From PV Require Import MiniPy.Syntax MiniPy.Interp MiniTorch.OpsC12 MiniTorch.LemmasC12 Gen.C12Src.
-From PV Require Import C12.SrcRun C12.TieLib.
-From PV Require C12.Model.
+From PV Require Import C12.SrcRun C12.TieLib C12.TieModel C12.TieLoad C12.TieHyp.
+From PV Require C12.Model C12.Spec C12.Proofs C12.Proofs2.
 Import ListNotations.
 Local Open Scope string_scope.
 
-#[local] Arguments enc12 : simpl never.
-#[local] Arguments dec12 : simpl never.
-#[local] Arguments T1 : simpl never.
-#[local] Arguments T2 : simpl never.
-#[local] Arguments NZ : simpl never.
-#[local] Arguments new_full : simpl never.
-#[local] Arguments cat : simpl never.
-#[local] Arguments ndim : simpl never.
-#[local] Arguments size : simpl never.
-#[local] Arguments numel : simpl never.
-#[local] Arguments select_col : simpl never.
-#[local] Arguments set_item : simpl never.
-#[local] Arguments get_item : simpl never.
-#[local] Arguments item : simpl never.
-#[local] Arguments unsqueeze : simpl never.
-#[local] Arguments slice0 : simpl never.
-#[local] Arguments nonzero : simpl never.
-#[local] Arguments eq_scalar : simpl never.
-#[local] Arguments cpu : simpl never.
-#[local] Arguments long : simpl never.
-#[local] Arguments then_ : simpl never.
-#[local] Arguments Z.of_nat : simpl never.
-#[local] Arguments torch_module : simpl never.
-#[local] Arguments store : simpl never.
-#[local] Arguments ext12 env f !args kw st /.
-#[local] Arguments bind {A B} !o f /.
+(* ---- _load_ref ---------------------------------------------------------------------------------------------------- *)
+Definition source_load_ref_is_model := load_ref_run.
+Definition source_src_load_ref_is_model := src_load_ref_tie.
 
-Lemma t_cuda_T1 : forall cu dt l, t_cuda (T1 cu dt l) = cu. Proof. reflexivity. Qed.
-Lemma t_dtype_T1 : forall cu dt l, t_dtype (T1 cu dt l) = dt. Proof. reflexivity. Qed.
-Lemma t_cuda_T2 : forall cu dt w r, t_cuda (T2 cu dt w r) = cu. Proof. reflexivity. Qed.
-Lemma t_dtype_T2 : forall cu dt w r, t_dtype (T2 cu dt w r) = dt. Proof. reflexivity. Qed.
-Lemma leb_0_of_nat : forall n, (0 <=? Z.of_nat n)%Z = true. Proof. intros. lia. Qed.
-
-Ltac tstep :=
-  cbn;
-  change (Z.of_nat 3) with 3%Z; change (Z.of_nat 2) with 2%Z; change (Z.of_nat 1) with 1%Z; change (Z.of_nat 0) with 0%Z;
-  change (Pos.to_nat 1) with 1%nat; change (Pos.to_nat 2) with 2%nat; change (Pos.to_nat 3) with 3%nat;
-  rewrite ?method_enc12, ?attribute_enc12, ?foreign_enc12, ?subscript_enc12_int, ?subscript_enc12_tuple, ?isnot_none_enc12,
-    ?is_none_enc12, ?dec12_enc12, ?on1_enc, ?ndim_T1, ?ndim_T2, ?size_T2_1, ?cat0_T1, ?cat0_T2,
-    ?t_cuda_T1, ?t_dtype_T1, ?t_cuda_T2, ?t_dtype_T2, ?leb_0_of_nat, ?Nat2Z.id, ?select_col_T2_w0, ?set_item_T1_nil,
-    ?cpu_T1, ?cpu_T2, ?long_T1, ?long_T2, ?eq_scalar_T1, ?nonzero_T1, ?numel_NZ, ?item_T1_1,
-    ?get_item_NZ_first, ?get_item_NZ_last, ?of_nat_S_eqb_0, ?store_name.
-
-Ltac open_seq := rewrite exec_seq'; match goal with |- context [then_ _ ?b] => let r := fresh "rest" in remember b as r end.
-Ltac norm_state := unfold set_var; cbn [update vars events String.eqb Ascii.eqb Bool.eqb].
-Ltac close_stmt := norm_state; rewrite then_normal; match goal with H : ?r = _ |- context [exec _ ?r _] => subst r end.
-Ltac stmt := open_seq; repeat (progress tstep).
-
-(* ================================================ _load_ref ===================================================== *)
-Definition sym_ok (dt : Model.dtype) (o : option Z) : Prop :=
-  match o with Some s => in_range dt s = true | None => True end.
-
-Definition ocons {A} (o : option A) (l : list A) : list A := match o with Some x => x :: l | None => l end.
-Definition osnoc {A} (l : list A) (o : option A) : list A := match o with Some x => l ++ [x] | None => l end.
-
-Ltac fill_side := first [ apply cast_fill_in_range; assumption | eapply in_range_numeric; eassumption ].
-
-Ltac new_full_step := erewrite new_full_T1 by (rewrite ?t_dtype_T1, ?t_dtype_T2; fill_side); repeat (progress tstep).
-Ltac setitem_step := erewrite store_sub_enc12 by (cbn; reflexivity); repeat (progress tstep).
-Ltac start_run lem :=
-  unfold run_load_ref; eexists; apply lem;
-  unfold load_ref_body, load_vars; cbn [Model.c_sos Model.c_eos Model.c_tokens_only oz].
-
-(* 1-D references *)
-Lemma load_T1 : forall cu dt l tk sa sos eos, sym_ok dt sos -> sym_ok dt eos ->
-  exists st, run_load_ref (Model.mkCfg sos eos tk sa) (T1 cu dt l) = Ok (enc12 (T1 cu dt (osnoc (ocons sos l) eos))) st.
-Proof.
-  intros cu dt l tk sa sos eos Hs He.
-  destruct tk, sos as [s|], eos as [e|]; cbn [sym_ok oz ocons osnoc] in *;
-  start_run run_of_exec_return;
-  (stmt; close_stmt); (stmt; close_stmt); (stmt; close_stmt);
-  (stmt; try new_full_step; close_stmt); (stmt; try new_full_step; close_stmt);
-  repeat (progress tstep); reflexivity.
-Qed.
-
-(* 2-D references under tokens_only: the first column, then as a 1-D reference *)
-Lemma load_T2_tk : forall cu dt w rows sa sos eos, Forall (fun r => List.length r = S w) rows ->
-  sym_ok dt sos -> sym_ok dt eos ->
-  exists st, run_load_ref (Model.mkCfg sos eos true sa) (T2 cu dt (S w) rows)
-             = Ok (enc12 (T1 cu dt (osnoc (ocons sos (map (fun r => hd 0%Z r) rows)) eos))) st.
-Proof.
-  intros cu dt w rows sa sos eos HF Hs He.
-  destruct sos as [s|], eos as [e|]; cbn [sym_ok oz ocons osnoc] in *;
-  start_run run_of_exec_return;
-  (stmt; close_stmt); (stmt; close_stmt);
-  (stmt; rewrite (select_col_T2_0 cu dt w rows HF); repeat (progress tstep); close_stmt);
-  (stmt; try new_full_step; close_stmt); (stmt; try new_full_step; close_stmt);
-  repeat (progress tstep); reflexivity.
-Qed.
-
-Lemma load_T2_tk_w0 : forall cu dt rows sa sos eos,
-  exists st, run_load_ref (Model.mkCfg sos eos true sa) (T2 cu dt 0 rows) = Exc "IndexError" st.
-Proof.
-  intros cu dt rows sa sos eos. start_run run_of_exec_exc.
-  (stmt; close_stmt); (stmt; close_stmt). stmt. reflexivity.
-Qed.
-
-(* 2-D references with their segments: a row (sym, -1, ..., -1) in front / at the end *)
-Definition wrap_rows (dt : Model.dtype) (w : nat) (sos eos : option Z) (rows : list (list Z)) : list (list Z) :=
-  osnoc (ocons (option_map (Model.sym_row dt w) sos) rows) (option_map (Model.sym_row dt w) eos).
-
-Ltac sym_row_steps :=
-  new_full_step; setitem_step;
-  erewrite set_item_T1_0 by fill_side; repeat (progress tstep);
-  erewrite unsqueeze_T1_0 by (cbn [List.length]; rewrite repeat_length; reflexivity); repeat (progress tstep).
-
-Lemma load_T2 : forall cu dt w rows sa sos eos, sym_ok dt sos -> sym_ok dt eos ->
-  exists st, run_load_ref (Model.mkCfg sos eos false sa) (T2 cu dt (S w) rows)
-             = Ok (enc12 (T2 cu dt (S w) (wrap_rows dt (S w) sos eos rows))) st.
-Proof.
-  intros cu dt w rows sa sos eos Hs He. unfold wrap_rows.
-  destruct sos as [s|], eos as [e|]; cbn [sym_ok oz ocons osnoc option_map Model.sym_row] in *;
-  start_run run_of_exec_return;
-  (stmt; close_stmt); (stmt; close_stmt); (stmt; close_stmt);
-  (stmt; try sym_row_steps; close_stmt); (stmt; try sym_row_steps; close_stmt);
-  repeat (progress tstep); reflexivity.
-Qed.
-
-Lemma load_T2_plain : forall cu dt w rows sa,
-  exists st, run_load_ref (Model.mkCfg None None false sa) (T2 cu dt w rows) = Ok (enc12 (T2 cu dt w rows)) st.
-Proof.
-  intros. start_run run_of_exec_return.
-  (stmt; close_stmt); (stmt; close_stmt); (stmt; close_stmt); (stmt; close_stmt); (stmt; close_stmt).
-  repeat (progress tstep); reflexivity.
-Qed.
-
-(* a zero-width 2-D reference: `sos_sym[0] = sos` raises IndexError *)
-Lemma load_T2_w0 : forall cu dt rows sa sos eos, sym_ok dt sos -> sym_ok dt eos -> (sos <> None \/ eos <> None) ->
-  exists st, run_load_ref (Model.mkCfg sos eos false sa) (T2 cu dt 0 rows) = Exc "IndexError" st.
-Proof.
-  intros cu dt rows sa sos eos Hs He Hn.
-  destruct sos as [s|]; [|destruct eos as [e|]; [|exfalso; destruct Hn as [Hn|Hn]; now apply Hn]];
-  cbn [sym_ok oz] in *; start_run run_of_exec_exc;
-  (stmt; close_stmt); (stmt; close_stmt); (stmt; close_stmt).
-  - stmt. new_full_step. setitem_step. reflexivity.
-  - stmt. close_stmt. stmt. new_full_step. setitem_step. reflexivity.
-Qed.
-
-(* references that are neither 1-D nor 2-D: torch.cat with the one-element symbol tensor raises RuntimeError *)
-Lemma ndim_mk : forall t, Z.of_nat (ndim t) = Z.of_nat (List.length (t_shape t)).
+Lemma sym_row3 : forall dt s, row3 (s, Model.minus1 dt, Model.minus1 dt) = Model.sym_row dt 3 s.
 Proof. reflexivity. Qed.
 
-Lemma cat0_T1_other : forall cu dt x l t, ndim t <> 1%nat -> t_dtype t = dt -> t_cuda t = cu ->
-  cat (T1 cu dt (x :: l)) t 0 = Raise "RuntimeError".
+(* reading a 1-D transcript (empty included) through the interpreted source puts the symbols around it *)
+Theorem source_load_ref_wraps_1d : forall c cu dt t, Model.c_tokens_only c = false ->
+  sym_ok dt (Model.c_sos c) -> sym_ok dt (Model.c_eos c) ->
+  exists st, run_load_ref c (T1 cu dt t)
+             = Ok (enc12 (T1 cu dt (Spec.wrap (Model.c_sos c) (Model.c_eos c) t))) st.
 Proof.
-  intros cu dt x l [cu' dt' sh d] Hn Hd Hc. cbn in Hd, Hc. subst. unfold cat, T1, ndim in *.
-  cbn [t_cuda t_dtype t_shape t_data] in *. rewrite dtype_beq_refl, eqb_reflx. cbn [andb negb].
-  destruct sh as [|n [|m sh]]; [reflexivity|now contradiction Hn|]. cbn. now destruct n.
+  intros c cu dt t Hto Hs He.
+  pose proof (load_ref_run c (Model.mkRef cu dt (Model.R1 t)) I Hs He) as H.
+  rewrite (Proofs2.load_ref_1d c cu dt t Hto) in H. exact H.
 Qed.
 
-Lemma cat0_other_T1 : forall cu dt x l t, ndim t <> 1%nat -> t_dtype t = dt -> t_cuda t = cu ->
-  cat t (T1 cu dt (x :: l)) 0 = Raise "RuntimeError".
+(* ... a transcript with segments: rows (sym, -1, -1) *)
+Theorem source_load_ref_wraps_2d : forall c cu dt rows, Model.c_tokens_only c = false -> dt <> Model.DU8 ->
+  sym_ok dt (Model.c_sos c) -> sym_ok dt (Model.c_eos c) ->
+  exists st, run_load_ref c (T2 cu dt 3 (map row3 rows))
+             = Ok (enc12 (T2 cu dt 3 (map row3 (Spec.wrap (option_map Spec.sym_of (Model.c_sos c))
+                                                          (option_map Spec.sym_of (Model.c_eos c)) rows)))) st.
 Proof.
-  intros cu dt x l [cu' dt' sh d] Hn Hd Hc. cbn in Hd, Hc. subst. unfold cat, T1, ndim in *.
-  cbn [t_cuda t_dtype t_shape t_data] in *. rewrite dtype_beq_refl, eqb_reflx. cbn [andb negb].
-  destruct sh as [|n [|m sh]]; [reflexivity|now contradiction Hn|]. cbn. now destruct n.
+  intros c cu dt rows Hto Hd Hs He.
+  pose proof (load_ref_run c (Model.mkRef cu dt (Model.R2 rows)) I Hs He) as H.
+  rewrite (Proofs2.load_ref_2d c cu dt rows Hto Hd) in H. exact H.
 Qed.
 
-Lemma load_other_plain : forall t tk sa, ndim t <> 2%nat ->
-  exists st, run_load_ref (Model.mkCfg None None tk sa) t = Ok (enc12 t) st.
+(* ... tokens_only: the token column, wrapped *)
+Theorem source_load_ref_wraps_tokens_only : forall c cu dt rows, Model.c_tokens_only c = true ->
+  sym_ok dt (Model.c_sos c) -> sym_ok dt (Model.c_eos c) ->
+  exists st, run_load_ref c (T2 cu dt 3 (map row3 rows))
+             = Ok (enc12 (T1 cu dt (Spec.wrap (Model.c_sos c) (Model.c_eos c) (map Model.tok_of rows)))) st.
 Proof.
-  intros t tk sa H2. assert (E : (Z.of_nat (ndim t) =? 2)%Z = false) by lia.
-  destruct tk; start_run run_of_exec_return;
-  (stmt; close_stmt); (stmt; close_stmt); (stmt; rewrite ?E; repeat (progress tstep); close_stmt);
-  (stmt; close_stmt); (stmt; close_stmt); repeat (progress tstep); reflexivity.
+  intros c cu dt rows Hto Hs He.
+  pose proof (load_ref_run c (Model.mkRef cu dt (Model.R2 rows)) I Hs He) as H.
+  rewrite (Proofs2.load_ref_tokens_only c cu dt rows Hto) in H. exact H.
 Qed.
 
-Lemma load_other_sym : forall t tk sa sos eos, ndim t <> 1%nat -> ndim t <> 2%nat ->
-  sym_ok (t_dtype t) sos -> sym_ok (t_dtype t) eos -> (sos <> None \/ eos <> None) ->
-  exists st, run_load_ref (Model.mkCfg sos eos tk sa) t = Exc "RuntimeError" st.
+(* ---- _write_hyp --------------------------------------------------------------------------------------------------- *)
+Definition source_write_hyp_is_model := write_hyp_run.
+Definition source_src_write_hyp_is_model := src_write_hyp_tie.
+
+(* whatever 1-D hypothesis is passed: what the interpreted source stores is a contiguous piece of it without either symbol *)
+Theorem source_write_hyp_strips : forall sos eos cu dt (l : list Z),
+  exists st stored,
+    run_write_hyp sos eos (T1 cu dt l) = Ok VNone st /\ events st = saved (T1 false Model.DI64 stored)
+    /\ (exists pre post, l = (pre ++ stored ++ post)%list)
+    /\ (forall s, sos = Some s -> Forall (fun x => x <> s) stored)
+    /\ (forall e, eos = Some e -> Forall (fun x => x <> e) stored).
 Proof.
-  intros t tk sa sos eos H1 H2 Hs He Hn. assert (E : (Z.of_nat (ndim t) =? 2)%Z = false) by lia.
-  destruct sos as [s|]; [|destruct eos as [e|]; [|exfalso; destruct Hn as [Hn|Hn]; now apply Hn]];
-  cbn [sym_ok oz] in *; destruct tk; start_run run_of_exec_exc;
-  (stmt; close_stmt); (stmt; close_stmt); (stmt; rewrite ?E; repeat (progress tstep); close_stmt).
-  1,2: stmt; rewrite ?E; repeat (progress tstep); erewrite new_full_T1 by fill_side; repeat (progress tstep);
-       rewrite cat0_T1_other by (assumption || reflexivity); reflexivity.
-  1,2: stmt; close_stmt; stmt; rewrite ?E; repeat (progress tstep); erewrite new_full_T1 by fill_side; repeat (progress tstep);
-       rewrite cat0_other_T1 by (assumption || reflexivity); reflexivity.
+  intros sos eos cu dt l.
+  destruct (write_hyp_run sos eos cu dt (Model.R1 l) I) as [st [E1 E2]].
+  exists st, (Model.strip_hyp (fun x => x) sos eos l). split; [exact E1|]. split; [exact E2|].
+  split; [apply (Proofs2.strip_infix (fun x => x))|]. apply (Proofs2.strip_free (fun x : Z => x)).
+Qed.
+
+(* ---- the round trip, purely about the interpreted source: what `_load_ref` returns for a stored transcript free of the
+        symbols, handed to `_write_hyp`, is stored as the bare transcript (as a CPU long tensor) ---- *)
+Theorem source_roundtrip_1d : forall c cu dt t, Model.c_tokens_only c = false ->
+  sym_ok dt (Model.c_sos c) -> sym_ok dt (Model.c_eos c) ->
+  Proofs2.free_of (Model.c_sos c) t -> Proofs2.free_of (Model.c_eos c) t ->
+  (forall s e, Model.c_sos c = Some s -> Model.c_eos c = Some e -> s <> e) ->
+  exists loaded st1 st2,
+    run_load_ref c (T1 cu dt t) = Ok (enc12 loaded) st1
+    /\ run_write_hyp (Model.c_sos c) (Model.c_eos c) loaded = Ok VNone st2
+    /\ events st2 = saved (T1 false Model.DI64 t).
+Proof.
+  intros c cu dt t Hto Hs He Fs Fe Hne.
+  destruct (source_load_ref_wraps_1d c cu dt t Hto Hs He) as [st1 E1].
+  destruct (write_hyp_run (Model.c_sos c) (Model.c_eos c) cu dt
+              (Model.R1 (Spec.wrap (Model.c_sos c) (Model.c_eos c) t)) I) as [st2 [E2 E3]].
+  rewrite (Proofs2.roundtrip_1d _ _ t Fs Fe Hne) in E3.
+  exists (T1 cu dt (Spec.wrap (Model.c_sos c) (Model.c_eos c) t)), st1, st2. repeat split; assumption.
+Qed.
+
+Theorem source_roundtrip_2d : forall c cu dt rows, Model.c_tokens_only c = false -> dt <> Model.DU8 ->
+  sym_ok dt (Model.c_sos c) -> sym_ok dt (Model.c_eos c) ->
+  Proofs2.free_of (Model.c_sos c) (map Model.tok_of rows) -> Proofs2.free_of (Model.c_eos c) (map Model.tok_of rows) ->
+  (forall s e, Model.c_sos c = Some s -> Model.c_eos c = Some e -> s <> e) ->
+  exists loaded st1 st2,
+    run_load_ref c (T2 cu dt 3 (map row3 rows)) = Ok (enc12 loaded) st1
+    /\ run_write_hyp (Model.c_sos c) (Model.c_eos c) loaded = Ok VNone st2
+    /\ events st2 = saved (T2 false Model.DI64 3 (map row3 rows)).
+Proof.
+  intros c cu dt rows Hto Hd Hs He Fs Fe Hne.
+  destruct (source_load_ref_wraps_2d c cu dt rows Hto Hd Hs He) as [st1 E1].
+  destruct (write_hyp_run (Model.c_sos c) (Model.c_eos c) cu dt
+              (Model.R2 (Spec.wrap (option_map Spec.sym_of (Model.c_sos c)) (option_map Spec.sym_of (Model.c_eos c)) rows)) I)
+    as [st2 [E2 E3]].
+  rewrite (Proofs2.roundtrip_2d _ _ rows Fs Fe Hne) in E3.
+  eexists _, st1, st2. repeat split; [exact E1|exact E2|exact E3].
 Qed.
